@@ -226,7 +226,7 @@ func TestVerifC26_HTTPHandlers(t *testing.T) {
 					herr = err
 				}
 				return ok
-			})
+			}, nil)
 		_ = app.Shutdown()
 		if herr != nil {
 			t.Fatalf("harness: %v", herr)
